@@ -2411,9 +2411,15 @@ func (a *Agent) handleControlRequest(peerID identity.AgentID, frame *protocol.Fr
 			return
 		}
 
-		// Track this forwarded request so we can route the response back
+		// Track this forwarded request so we can route the response back.
+		// Request IDs are chosen by each requester, so two requesters (or a
+		// requester and this agent's own requests) may use the same value: the
+		// request travels on under an ID from our own counter, and the
+		// requester's ID is restored when the response comes back.
 		a.controlMu.Lock()
-		a.forwardedControl[req.RequestID] = &forwardedControlRequest{
+		a.nextControlID++
+		fwdID := a.nextControlID
+		a.forwardedControl[fwdID] = &forwardedControlRequest{
 			RequestID:  req.RequestID,
 			SourcePeer: peerID,
 			CreatedAt:  time.Now(),
@@ -2428,7 +2434,7 @@ func (a *Agent) handleControlRequest(peerID identity.AgentID, frame *protocol.Fr
 			"source_peer", peerID.ShortString())
 
 		fwdReq := &protocol.ControlRequest{
-			RequestID:   req.RequestID,
+			RequestID:   fwdID,
 			ControlType: req.ControlType,
 			TargetAgent: req.TargetAgent,
 			Path:        remainingPath,
@@ -2445,7 +2451,7 @@ func (a *Agent) handleControlRequest(peerID identity.AgentID, frame *protocol.Fr
 				logging.KeyPeerID, nextHop.ShortString(),
 				logging.KeyError, err)
 			a.controlMu.Lock()
-			delete(a.forwardedControl, req.RequestID)
+			delete(a.forwardedControl, fwdID)
 			a.controlMu.Unlock()
 			a.sendControlResponse(peerID, req.RequestID, req.ControlType, false, []byte("failed to forward: "+err.Error()))
 		}
@@ -2524,6 +2530,8 @@ func (a *Agent) handleControlResponse(peerID identity.AgentID, frame *protocol.F
 			"to", forwarded.SourcePeer.ShortString(),
 			"request_id", resp.RequestID)
 
+		// Hand the response back under the ID the requester chose
+		resp.RequestID = forwarded.RequestID
 		responseFrame := &protocol.Frame{
 			Type:     protocol.FrameControlResponse,
 			StreamID: protocol.ControlStreamID,
